@@ -984,6 +984,172 @@ where
 }
 
 //
+// verification hooks (read-only, except for installing the simulated clock)
+//
+#[cfg(mini_moka_verif)]
+impl<K, V, S> Cache<K, V, S>
+where
+    K: Hash + Eq,
+    S: BuildHasher + Clone,
+{
+    /// Makes `clock` the only clock this cache reads.
+    pub fn verif_set_clock(&mut self, clock: &crate::verif::VerifClock) {
+        self.expiration_clock = Some(crate::common::time::Clock::verif_from_mock(
+            std::sync::Arc::clone(&clock.mock),
+        ));
+    }
+
+    /// The popularity estimate the admission policy currently has for `key`.
+    pub fn verif_estimate(&self, key: &K) -> u8 {
+        self.frequency_sketch
+            .frequency(self.build_hasher.hash_one(key))
+    }
+
+    /// What the cache physically holds, plus the result of a structural walk.
+    pub fn verif_snapshot(
+        &self,
+        base: std::time::Instant,
+        key_id: &dyn Fn(&K) -> u64,
+        val_id: &dyn Fn(&V) -> u64,
+    ) -> crate::verif::Snapshot {
+        use crate::verif::{SnapEntry, SnapNode, Snapshot};
+        use std::collections::HashMap;
+
+        let deqs = &self.deques;
+        let mut snap = Snapshot {
+            entry_count: self.entry_count,
+            weighted_size: self.weighted_size,
+            window_len: deqs.window.verif_len(),
+            protected_len: deqs.protected.verif_len(),
+            sketch_enabled: self.frequency_sketch_enabled,
+            ..Default::default()
+        };
+
+        let ao_nodes = deqs.probation.verif_walk("probation", &mut snap.errors);
+        let wo_nodes = deqs.write_order.verif_walk("write_order", &mut snap.errors);
+        deqs.window.verif_walk("window", &mut snap.errors);
+        deqs.protected.verif_walk("protected", &mut snap.errors);
+
+        let rel = |t: Option<Instant>| t.map(|t| t.verif_nanos_since(base));
+
+        // node address -> key id
+        let mut ao_index = HashMap::new();
+        for n in &ao_nodes {
+            let elem = &unsafe { n.as_ref() }.element;
+            let node = SnapNode {
+                key: key_id(&elem.key),
+                info: n.as_ptr() as usize,
+            };
+            ao_index.insert(n.as_ptr() as usize, node.key);
+            snap.probation.push(node);
+        }
+        let mut wo_index = HashMap::new();
+        for n in &wo_nodes {
+            let elem = &unsafe { n.as_ref() }.element;
+            let node = SnapNode {
+                key: key_id(&elem.key),
+                info: n.as_ptr() as usize,
+            };
+            wo_index.insert(n.as_ptr() as usize, node.key);
+            snap.write_order.push(node);
+        }
+
+        let wo_enabled = self.time_to_live.is_some();
+        let mut ao_of_key = HashMap::new();
+        let mut wo_of_key = HashMap::new();
+        for (key, entry) in self.cache.iter() {
+            let kid = key_id(key);
+            let ao = entry.access_order_q_node();
+            let wo = entry.write_order_q_node();
+            let mut ao_ok = false;
+            let mut wo_ok = false;
+            if let Some(tagged) = ao {
+                let (node, tag) = tagged.decompose();
+                let addr = node.as_ptr() as usize;
+                ao_of_key.insert(kid, addr);
+                match ao_index.get(&addr) {
+                    None => snap.errors.push(format!(
+                        "entry {}: access-order node pointer is not a node of the probation deque (dangling)",
+                        kid
+                    )),
+                    Some(k) => {
+                        ao_ok = true;
+                        if tag != CacheRegion::MainProbation as usize {
+                            snap.errors.push(format!("entry {}: wrong region tag {}", kid, tag));
+                        }
+                        if *k != kid {
+                            snap.errors.push(format!(
+                                "entry {}: its access-order node carries key {}",
+                                kid, k
+                            ));
+                        }
+                    }
+                }
+            } else {
+                snap.errors
+                    .push(format!("entry {}: resident without an access-order node", kid));
+            }
+            if let Some(node) = wo {
+                let addr = node.as_ptr() as usize;
+                wo_of_key.insert(kid, addr);
+                match wo_index.get(&addr) {
+                    None => snap.errors.push(format!(
+                        "entry {}: write-order node pointer is not a node of the write-order deque (dangling)",
+                        kid
+                    )),
+                    Some(k) => {
+                        wo_ok = true;
+                        if *k != kid {
+                            snap.errors.push(format!(
+                                "entry {}: its write-order node carries key {}",
+                                kid, k
+                            ));
+                        }
+                    }
+                }
+            } else if wo_enabled {
+                snap.errors
+                    .push(format!("entry {}: resident without a write-order node", kid));
+            }
+            snap.entries.push(SnapEntry {
+                key: kid,
+                value: val_id(&entry.value),
+                weight: entry.policy_weight(),
+                admitted: ao.is_some(),
+                dirty: false,
+                // Only dereference node pointers that the walk has reached.
+                last_accessed: if ao_ok { rel(entry.last_accessed()) } else { None },
+                last_modified: if wo_ok { rel(entry.last_modified()) } else { None },
+                has_ao_node: ao.is_some(),
+                has_wo_node: wo.is_some(),
+                info: ao.map(|n| n.decompose_ptr() as usize).unwrap_or(0),
+            });
+        }
+
+        for (name, nodes, of_key) in [
+            ("probation", &snap.probation, &ao_of_key),
+            ("write_order", &snap.write_order, &wo_of_key),
+        ] {
+            for n in nodes.iter() {
+                match of_key.get(&n.key) {
+                    None => snap.strict_errors.push(format!(
+                        "{}: node for key {} which is not in the map",
+                        name, n.key
+                    )),
+                    Some(addr) if *addr != n.info => snap.strict_errors.push(format!(
+                        "{}: stray second node for key {}",
+                        name, n.key
+                    )),
+                    _ => {}
+                }
+            }
+        }
+        snap.entries.sort_by_key(|e| e.key);
+        snap
+    }
+}
+
+//
 // for testing
 //
 #[cfg(test)]
